@@ -1260,6 +1260,49 @@ def showPdb (d : PdbS) : String :=
 
 def pdbHandle := formatHandle "pdb" rdPdb showPdb writePdb quantPdb reprPdb rangePdb parsePdb
 
+def rdBool : Rd Bool := do
+  let w ← rdWord
+  if w == "true" then pure true else if w == "false" then pure false else failure
+
+def rdXcfg : Rd XcfgS := do
+  let base ← rdN rdRat 9
+  let unit ← rdBool
+  let na ← rdNat
+  let names ← rdN rdStr na
+  let n ← rdNat
+  let atoms ← rdN (do
+    let e ← rdStr; let m ← rdRat; let p ← rdV3; let o ← rdRat; let u ← rdN rdRat 9
+    let v ← rdOpt rdV3
+    let k ← rdNat
+    let aux ← rdN rdRat k
+    pure (⟨e, m, p, o, u, v, aux⟩ : XAtom)) n
+  pure ⟨base, unit, names, atoms⟩
+
+def showXcfgRead (d : XcfgRead) : String :=
+  s!"ok {d.natoms} {showRat d.a} " ++ " ".intercalate (d.base.map showRat) ++ s!" {d.atoms.length}" ++
+  String.join (d.atoms.map (fun a =>
+    s!" {encodeStr a.el} {shV3 a.xyz} {shOpt shV3 a.v} {a.aux.length}" ++
+    String.join (a.aux.map (fun p => s!" {encodeStr p.1} {showRat p.2}"))))
+
+/-- XCFG commands (the document read back has its own type) -/
+def xcfgHandle (ws : List String) : Option String :=
+  match ws with
+  | "fmt.xcfg.parse" :: rest =>
+    match rest.mapM decodeStr with
+    | some ls => some (showRes showXcfgRead (parseXcfg ls))
+    | none => some "bad-op"
+  | cmd :: rest =>
+    if cmd == "fmt.xcfg.write" || cmd == "fmt.xcfg.quant" || cmd == "fmt.xcfg.repr" || cmd == "fmt.xcfg.trip" then
+      match rdAll rdXcfg rest with
+      | none => some "bad-op"
+      | some d =>
+        if cmd == "fmt.xcfg.write" then some (encodeLines (writeXcfg d))
+        else if cmd == "fmt.xcfg.quant" then some (showXcfgRead (quantXcfg d))
+        else if cmd == "fmt.xcfg.repr" then some s!"repr={rangeXcfg d} range={rangeXcfg d}"
+        else some (showRes showXcfgRead (parseXcfg (ofText (toText (writeXcfg d)))))
+    else none
+  | [] => none
+
 def discusHandle := formatHandle "discus" rdDiscus showDiscus writeDiscus quantDiscus reprDiscus rangeDiscus parseDiscus
 def pdffitHandle := formatHandle "pdffit" rdPdffit showPdffit writePdffit quantPdffit reprPdffit rangePdffit parsePdffit
 
@@ -1268,5 +1311,5 @@ end DS.Formats
 namespace DS
 /-- driver handler of C04: the text layer (`fmt.f`, `fmt.g`, …) and the per-format models -/
 def fmtHandle (ws : List String) : Option String :=
-  [DS.Dec.decHandle, DS.Formats.xyzHandle, DS.Formats.discusHandle, DS.Formats.pdffitHandle, DS.Formats.pdbHandle].findSome? (fun h => h ws)
+  [DS.Dec.decHandle, DS.Formats.xyzHandle, DS.Formats.discusHandle, DS.Formats.pdffitHandle, DS.Formats.pdbHandle, DS.Formats.xcfgHandle].findSome? (fun h => h ws)
 end DS
